@@ -36,7 +36,9 @@ CLAIMS = {
  "C17": dict(
     text="Bounded model checking of the real WaitSlot (register/notify/wait_while, MIR -> C) with a parker that has NO timeout: a lost "
          "wake-up is a reachable assertion failure. Waiter loop vs publishing notifier, stale notifier (incl. before registration), two "
-         "publications, and the real commit-loop predicate with the real cancel() and finality notification. All interleavings, <=3 wait rounds.",
+         "publications, and the real commit-loop predicate with the real cancel() and finality notification (all interleavings, <=3 wait rounds); "
+         "producer side on the real run_finality_loop: every finality publication is followed by a commit notification before the loop sleeps or "
+         "returns, for every batch shape (n=3).",
     note=TRUST + "std parker modelled as one token per thread (unpark-before-park makes park return); OnceLock set/get atomic; SC.",
     design="5/C17"),
  "C04": dict(
@@ -160,8 +162,8 @@ CLAIMS = {
          "its commit boundary, an erroring attempt that does not abort is claimable again (C16 / C04 kernels); with the abort flag set "
          "next() hands out and claims nothing and the commit loop returns at once.",
     note=TRUST + "NOT decided: termination of schedules longer than the bounds; the panic path (CancelOnPanic, resume_unwind: needs MIR "
-         "unwind edges); the composition real finality loop || real commit loop (experimental tier, not decided within the time cap, so a "
-         "missing second notification after a two-transaction finality batch -- seed C17-1 -- is NOT detected); OS parker / threads.",
+         "unwind edges); the full composition real finality loop || real commit loop (experimental tier, not decided by CBMC within hours; "
+         "it is replaced by the decomposition producer-side kernel C17/h6 + waiter-side kernels C17/h1-h3); OS parker / threads.",
     design="5/C05"),
  "C06": dict(
     text="What a solver reaches of configuration independence, on the real code: the sequential replay closure and the parallel "
